@@ -496,7 +496,7 @@ func c09Gen(rng *rand.Rand, tier string) []Case {
 			}
 			// a well-formed reply naming another address would (legitimately) vote the node out; keep malformed ones
 			if len(p) > 0 && p[0] == 6 {
-				p = p[:1+g.pick(2)]
+				p = p[:1+g.pick(min(2, len(p)))]
 			}
 			op += " " + hexb(p)
 		}
